@@ -173,7 +173,7 @@ func genC14(rt *rapid.T) c14Case {
 		if nm+ne > 0 {
 			nops := gen.Pick(rt, "nops", 5, 3, 2)
 			for k := 0; k < nops; k++ {
-				blk.Ops = append(blk.Ops, c14MemberOp{Kind: gen.OneOf(rt, "opkind", "submit_de", "reset_de", "activate"), M: gen.Uniform(rt, "opm", nm+ne)})
+				blk.Ops = append(blk.Ops, c14MemberOp{Kind: gen.OneOf(rt, "opkind", "submit_de", "reset_de", "activate", "consume_de", "consume_de"), M: gen.Uniform(rt, "opm", nm+ne)})
 			}
 		}
 		if gen.Chance(rt, "someabsent", 1, 3) {
@@ -532,6 +532,7 @@ func runC14(c c14Case) *pbt.Verdict {
 			meta = append(meta, ptx{"oracle_activate", i, !next.oracleActive[i]})
 			next.oracleActive[i] = true
 		}
+		touched := map[int]bool{} // members with a queue-changing tx already in this block
 		for _, o := range blk.Ops {
 			if nm+ne == 0 {
 				st.inapplicable++
@@ -544,10 +545,28 @@ func runC14(c c14Case) *pbt.Verdict {
 				txs = append(txs, ch.SignTx(ch.Users[u], tsstypes.NewMsgSubmitDEs([]tsstypes.DE{{PubD: pointOf(k), PubE: pointOf(k + 1)}}, ch.Users[u].Addr.String())))
 				meta = append(meta, ptx{"submit_de", u, true})
 				next.deCount[u]++
+				touched[u] = true
+			case "consume_de":
+				// a signing takes the member's oldest nonce (the keeper function signings use, applied between blocks; a
+				// direct store write, so not in replica mode): queues drained this way have Head == Tail > 0
+				if sim.Replicas > 1 || md.deCount[u] == 0 || touched[u] {
+					st.inapplicable++
+					continue
+				}
+				if _, derr := ch.App.TSSKeeper.DequeueDE(ch.WriteCtx(), ch.Users[u].Addr); derr != nil {
+					v.Failf("harness", "DequeueDE: %v", derr)
+					return v
+				}
+				md.deCount[u]--
+				next.deCount[u]--
+				if md.deCount[u] == 0 {
+					st.classes["nonce-queue-drained-by-consumption"] = true
+				}
 			case "reset_de":
 				txs = append(txs, ch.SignTx(ch.Users[u], tsstypes.NewMsgResetDE(ch.Users[u].Addr.String())))
 				meta = append(meta, ptx{"reset_de", u, true})
 				next.deCount[u] = 0
+				touched[u] = true
 			case "activate":
 				txs = append(txs, ch.SignTx(ch.Users[u], bandtsstypes.NewMsgActivate(ch.Users[u].Addr.String(), 1)))
 				okay := next.inCur[u] && !next.tssActive[u]
